@@ -119,6 +119,18 @@ def eval_handbuilt(plain, holds, mode, pol):
         raise
     except Exception as e:
         obs = ("exc", f"{type(e).__name__}: {e}")
+    if pol == M.RAISE:
+        # the documented default of orphaned_notes is RAISE_EXCEPTION: the same call without the argument
+        try:
+            dflt = ("ok", [N.from_impl(n) for n in N.ungroup_notes(iter(igroups))])
+        except N.OrphanedNoteException as e:
+            dflt = ("raise", N.from_impl(e.args[0]) if e.args else None)
+        except core.WatchdogTimeout:
+            raise
+        except Exception as e:
+            dflt = ("exc", f"{type(e).__name__}: {e}")
+        if dflt != obs:
+            return (("default orphaned_notes behaves like RAISE_EXCEPTION", obs), dflt)
     if splitting and pol == M.RAISE:
         if obs[0] == "raise" and obs[1] in splitting:
             return None
